@@ -88,6 +88,7 @@ type Trace struct {
 	Leaked    []string // threads (not daemons) blocked in the runtime at the horizon
 	Diverged  string   // non-empty: replay of the prefix diverged (harness error, not a verdict)
 	FakeTime  time.Duration
+	Learned   bool // the shared-lock set grew in this execution (exploration restarts)
 }
 
 // X is handed to the scenario builder of one execution.
@@ -106,6 +107,8 @@ type sched struct {
 	nextDae  int
 	aborting bool
 	opCount  int64
+	shared   *SharedSites
+	touch    map[interface{}]*touchRec
 }
 
 var (
@@ -223,9 +226,72 @@ func Acquire(kind Kind, obj interface{}) {
 		s.mu.Unlock()
 		return
 	}
+	// Partial-order reduction: an acquire is a scheduling point only if the lock is (known to be)
+	// shared between threads — it was already touched by another thread in this execution, or its
+	// call site was seen operating on a shared lock in an earlier execution of this exploration.
+	// Acquires of thread-local locks commute with every step of the other threads.
+	if s.shared != nil {
+		var pcs [1]uintptr
+		runtime.Callers(3, pcs[:])
+		pc := pcs[0]
+		tr := s.touch[obj]
+		if tr == nil {
+			tr = &touchRec{threads: map[int]bool{}, sites: map[uintptr]bool{}}
+			s.touch[obj] = tr
+		}
+		tr.threads[t.id] = true
+		tr.sites[pc] = true
+		if len(tr.threads) < 2 && !s.shared.has(pc) && s.can(kind, obj, false) {
+			s.take(kind, obj, t.id)
+			s.mu.Unlock()
+			return
+		}
+	}
 	t.parked, t.kind, t.obj, t.announced = true, kind, obj, false
 	s.mu.Unlock()
 	t.park(s)
+}
+
+type touchRec struct {
+	threads map[int]bool
+	sites   map[uintptr]bool
+}
+
+// SharedSites is the set of lock call sites learned to operate on locks shared between threads.
+type SharedSites struct {
+	mu sync.Mutex
+	m  map[uintptr]bool
+}
+
+func (ss *SharedSites) has(pc uintptr) bool {
+	ss.mu.Lock()
+	defer ss.mu.Unlock()
+	return ss.m[pc]
+}
+
+// Len returns the number of learned shared call sites.
+func (ss *SharedSites) Len() int { ss.mu.Lock(); defer ss.mu.Unlock(); return len(ss.m) }
+
+// learn adds the sites of every lock touched by >= 2 threads; reports whether the set grew.
+func (s *sched) learn() bool {
+	if s.shared == nil {
+		return false
+	}
+	grew := false
+	s.shared.mu.Lock()
+	for _, tr := range s.touch {
+		if len(tr.threads) < 2 {
+			continue
+		}
+		for pc := range tr.sites {
+			if !s.shared.m[pc] {
+				s.shared.m[pc] = true
+				grew = true
+			}
+		}
+	}
+	s.shared.mu.Unlock()
+	return grew
 }
 
 // Release is called by the shim for Unlock/RUnlock (not a scheduling point).
@@ -317,13 +383,20 @@ func Yield() {
 }
 
 // Go registers a harness thread; it starts parked at a Start point.
-func (x *X) Go(name string, fn func()) {
+func (x *X) Go(name string, fn func()) { x.GoID(-1, name, fn) }
+
+// GoID is Go with an explicit thread id (< 100), for threads created while the execution is
+// already running (e.g. by a harness callback) whose creation order is not deterministic. Safe to
+// call from any goroutine.
+func (x *X) GoID(id int, name string, fn func()) {
 	s := x.s
 	s.mu.Lock()
-	id := 0
-	for _, t := range s.threads {
-		if !t.daemon {
-			id++
+	if id < 0 {
+		id = 0
+		for _, t := range s.threads {
+			if !t.daemon && t.id >= id {
+				id = t.id + 1
+			}
 		}
 	}
 	t := &thread{id: id, name: name, resume: make(chan struct{})}
@@ -376,6 +449,10 @@ type Options struct {
 	Horizon time.Duration // fake time to let timers fire when nothing is selectable (default 0: none)
 	Tick    time.Duration
 	MaxStep int // safety bound on selections per execution (default 5000)
+	// Shared enables the shared-lock reduction (see Acquire); Explore creates and owns it when
+	// Reduce is set.
+	Shared *SharedSites
+	Reduce bool
 }
 
 // Run executes ONE schedule: prefix gives the choice index at the first len(prefix) decisions, later
@@ -390,7 +467,8 @@ func Run(prefix []int, expect []Decision, opt Options, build func(x *X) (finish 
 	if opt.Tick == 0 {
 		opt.Tick = time.Second
 	}
-	s := &sched{byGoid: map[uint64]*thread{}, locks: map[interface{}]*lockState{}, condQ: map[interface{}][]*thread{}}
+	s := &sched{byGoid: map[uint64]*thread{}, locks: map[interface{}]*lockState{}, condQ: map[interface{}][]*thread{},
+		shared: opt.Shared, touch: map[interface{}]*touchRec{}}
 	s.explorer = goid()
 	curMu.Lock()
 	cur = s
@@ -519,6 +597,9 @@ func Run(prefix []int, expect []Decision, opt Options, build func(x *X) (finish 
 		}
 	}
 	tr.FakeTime = advanced
+	s.mu.Lock()
+	tr.Learned = s.learn()
+	s.mu.Unlock()
 	// collect panics / leaks, then abort whatever is still parked
 	s.mu.Lock()
 	for _, t := range s.threads {
@@ -593,14 +674,35 @@ type Stats struct {
 	MaxSteps     int
 	BoundDone    int
 	Diverged     int
+	Passes       int // exploration passes (restarts when the shared-lock set grew)
+	SharedSites  int
 }
 
 // Explore enumerates ALL schedules with at most `bound` preemptions (iterative: 0, then 1, ...), by
 // stateless DFS over choice sequences. visit is called for every execution; returning false stops.
 func Explore(bound int, opt Options, build func(x *X) func(tr *Trace), visit func(choices []int, tr *Trace) bool, expired func() bool) Stats {
+	if opt.Reduce && opt.Shared == nil {
+		opt.Shared = &SharedSites{m: map[uintptr]bool{}}
+	}
+	passes := 0
+	for {
+		passes++
+		st, grew := explorePass(bound, opt, build, visit, expired)
+		st.Passes = passes
+		if opt.Shared != nil {
+			st.SharedSites = opt.Shared.Len()
+		}
+		if !grew || passes >= 8 {
+			return st
+		}
+	}
+}
+
+func explorePass(bound int, opt Options, build func(x *X) func(tr *Trace), visit func(choices []int, tr *Trace) bool, expired func() bool) (Stats, bool) {
 	var st Stats
 	st.ByBound = make([]int, bound+1)
 	stop := false
+	grew := false
 	var rec func(prefix []int, expect []Decision, cost int, b int)
 	rec = func(prefix []int, expect []Decision, cost int, b int) {
 		if stop || (expired != nil && expired()) {
@@ -608,6 +710,18 @@ func Explore(bound int, opt Options, build func(x *X) func(tr *Trace), visit fun
 			return
 		}
 		tr := Run(prefix, expect, opt, build)
+		if tr.Learned {
+			// new shared locks: earlier executions of this pass may have skipped points; finish
+			// nothing more here, the caller restarts the whole exploration with the larger set
+			grew = true
+			stop = true
+			ch := make([]int, len(tr.Decisions))
+			for i, d := range tr.Decisions {
+				ch[i] = d.Chosen
+			}
+			visit(ch, tr)
+			return
+		}
 		if tr.Diverged != "" {
 			st.Diverged++
 			visit(prefix, tr)
@@ -669,5 +783,5 @@ func Explore(bound int, opt Options, build func(x *X) func(tr *Trace), visit fun
 			st.BoundDone = b
 		}
 	}
-	return st
+	return st, grew
 }
